@@ -285,6 +285,8 @@ def smtpRset (s : Sess) : FuncRes :=
   else { replies := [250], rc := .ok, s := s }
 
 def smtpAuth (v : AuthV) (s : Sess) : FuncRes :=
+  -- `if (xmitstat.authname.len || !auth_permitted()) return 1;` (auth_permitted() is part of the verdict)
+  if !s.authname.isEmpty then { replies := [], rc := .badseq, s := s } else
   match v with
   | .success user => { replies := [235], rc := .ok, s := { s with authname := user } }
   | .failed code rc => { replies := if rc = .edone ∨ rc = .ebogus then [code] else [], rc := rc, s := s }
